@@ -10,8 +10,18 @@ Open Scope Z_scope.
 
 Definition bytes := list N.
 Definition len {A} (l : list A) : Z := Z.of_nat (length l).
-Definition takeZ {A} (n : Z) (l : list A) : list A := firstn (Z.to_nat n) l.
-Definition dropZ {A} (n : Z) (l : list A) : list A := skipn (Z.to_nat n) l.
+(* l[:n] and l[n:] for an int n (n <= 0 takes nothing); recursion on the list, so that huge
+   budgets (2**63) are never converted to unary numbers *)
+Fixpoint takeZ {A} (n : Z) (l : list A) : list A :=
+  match l with
+  | [] => []
+  | x :: tl => if n <=? 0 then [] else x :: takeZ (n - 1) tl
+  end.
+Fixpoint dropZ {A} (n : Z) (l : list A) : list A :=
+  match l with
+  | [] => []
+  | x :: tl => if n <=? 0 then l else dropZ (n - 1) tl
+  end.
 Definition nonempty {A} (l : list A) : bool := match l with [] => false | _ :: _ => true end.
 
 (* ------------------------------------------------------------------ WSGI *)
@@ -25,18 +35,18 @@ Definition nonempty {A} (l : list A) : bool := match l with [] => false | _ :: _
    requests without a size limit (read(-1), readline(-1), readlines(), next()). *)
 Record src := { s_data : bytes; s_caps : list nat; s_pos : Z; s_reach : Z; s_unb : Z }.
 
-Definition hand (k : nat) (n : Z) (caps : list nat) (s : src) : bytes * src :=
-  (firstn k (s_data s),
-   {| s_data := skipn k (s_data s); s_caps := caps;
-      s_pos := s_pos s + len (firstn k (s_data s));
+Definition hand (out : bytes) (n : Z) (caps : list nat) (s : src) : bytes * src :=
+  (out,
+   {| s_data := skipn (length out) (s_data s); s_caps := caps;
+      s_pos := s_pos s + len out;
       s_reach := if n <? 0 then s_reach s else Z.max (s_reach s) (s_pos s + n);
       s_unb := if n <? 0 then s_unb s + 1 else s_unb s |}).
 
 Definition src_read (n : Z) (s : src) : bytes * src :=
-  if n <? 0 then hand (length (s_data s)) n (s_caps s) s
+  if n <? 0 then hand (s_data s) n (s_caps s) s
   else match s_caps s with
-       | [] => hand (Z.to_nat n) n [] s
-       | c :: caps => hand (Nat.min (Z.to_nat n) (S c)) n caps s
+       | [] => hand (takeZ n (s_data s)) n [] s
+       | c :: caps => hand (takeZ (Z.min n (Z.of_nat (S c))) (s_data s)) n caps s
        end.
 
 (* length of the first line (incl. its LF) of d *)
@@ -46,9 +56,11 @@ Fixpoint line_len (d : bytes) : nat :=
   | c :: tl => if N.eqb c 10 then 1%nat else S (line_len tl)
   end.
 
+Definition first_line (d : bytes) : bytes := firstn (line_len d) d.
+
 Definition src_readline (n : Z) (s : src) : bytes * src :=
-  if n <? 0 then hand (line_len (s_data s)) n (s_caps s) s
-  else hand (line_len (firstn (Z.to_nat n) (s_data s))) n (s_caps s) s.
+  if n <? 0 then hand (first_line (s_data s)) n (s_caps s) s
+  else hand (first_line (takeZ n (s_data s))) n (s_caps s) s.
 
 (* io.IOBase.readlines(hint): hint <= 0 -> every line; else lines until total >= hint *)
 Fixpoint all_lines (fuel : nat) (d : bytes) : list bytes :=
@@ -74,8 +86,7 @@ Fixpoint hint_lines (fuel : nat) (hint total : Z) (d : bytes) : list bytes :=
 Definition src_readlines (hint : Z) (s : src) : list bytes * src :=
   let ls := if hint <=? 0 then all_lines (length (s_data s)) (s_data s)
             else hint_lines (length (s_data s)) hint 0 (s_data s) in
-  let k := length (concat ls) in
-  (ls, snd (hand k (-1) (s_caps s) s)).
+  (ls, snd (hand (concat ls) (-1) (s_caps s) s)).
 
 (* next(stream) = readline(); StopIteration when empty *)
 Definition src_next (s : src) : option bytes * src :=
